@@ -15,6 +15,7 @@ import (
 
 	"github.com/beevik/etree"
 	"github.com/crewjam/saml"
+	dsig "github.com/russellhaering/goxmldsig"
 )
 
 func init() { gens["C18"] = (*Ctx).genC18 }
@@ -61,6 +62,16 @@ func (c *Ctx) logoutXML(l lresp) []byte {
 		s, err := b.signCtx(l.Sig, "").SignEnveloped(el)
 		must(err)
 		el = s
+	case "idp-nokeyinfo", "attacker-nokeyinfo":
+		// the KeyInfo is not signed: anybody can remove it, and the verifier then has to find the key among the trusted ones
+		s, err := b.signCtx(strings.TrimSuffix(l.Sig, "-nokeyinfo"), "").SignEnveloped(el)
+		must(err)
+		el = s
+		if sg := el.FindElement("./Signature"); sg != nil {
+			if ki := sg.FindElement("./KeyInfo"); ki != nil {
+				sg.RemoveChild(ki)
+			}
+		}
 	case "idp-then-edit":
 		s, err := b.signCtx("idp", "").SignEnveloped(el)
 		must(err)
@@ -113,7 +124,11 @@ var (
 	// an incomplete or contradictory pin (fingerprint without algorithm, algorithm without fingerprint, either with a pinned
 	// certificate as well): the SP has no usable trust configuration, so no signature verifies
 	logoutPartialPin string
+	// the instant the certificate validity is judged at (nil: now); freshness of the response is judged at the real clock
+	logoutCertClock *time.Time
 )
+
+func tp(t time.Time) *time.Time { return &t }
 
 func (c *Ctx) runLogout(l lresp, encoding string, delay int64) {
 	cfg := baseCfg()
@@ -133,6 +148,9 @@ func (c *Ctx) runLogout(l lresp, encoding string, delay int64) {
 		}
 		fp, alg := strings.Join(parts, ":"), "http://www.w3.org/2001/04/xmlenc#sha256"
 		s.IDPCertificateFingerprint, s.IDPCertificateFingerprintAlgorithm = &fp, &alg
+	}
+	if logoutCertClock != nil {
+		saml.Clock = dsig.NewFakeClockAt(*logoutCertClock)
 	}
 	if logoutPartialPin != "" {
 		sum := sha256.Sum256(c.key("idp2").Cert.Raw) // the pin names a certificate the metadata does not list first
@@ -195,7 +213,7 @@ func (c *Ctx) runLogout(l lresp, encoding string, delay int64) {
 	})
 	// abstract document
 	var dtoks []string
-	sigst := map[string]string{"none": "a", "idp": "v", "attacker": "i", "idp2": "i", "idp-then-edit": "i", "moved": "a", "two": "i", "attacker+idpcert": "i", "idp+attackercert": "v"}[l.Sig]
+	sigst := map[string]string{"idp-nokeyinfo": "?", "attacker-nokeyinfo": "i", "none": "a", "idp": "v", "attacker": "i", "idp2": "i", "idp-then-edit": "i", "moved": "a", "two": "i", "attacker+idpcert": "i", "idp+attackercert": "v"}[l.Sig]
 	if l.Sig == "idp" || l.Sig == "idp2" || l.Sig == "attacker" {
 		sigst = "i"
 		for _, t := range cfg.Trust {
@@ -204,8 +222,15 @@ func (c *Ctx) runLogout(l lresp, encoding string, delay int64) {
 			}
 		}
 	}
-	if logoutPartialPin != "" && sigst == "v" {
+	if l.Sig == "idp-nokeyinfo" {
+		// without KeyInfo goxmldsig can only fall back to the trusted certificate when there is exactly one
 		sigst = "i"
+		if len(cfg.Trust) == 1 && cfg.Trust[0] == "idp" {
+			sigst = "v"
+		}
+	}
+	if (logoutPartialPin != "" || logoutCertClock != nil) && sigst == "v" {
+		sigst = "i" // no usable trust configuration / no trusted certificate valid at the moment: nothing verifies
 	}
 	switch {
 	case l.Kind == "garbage-b64" || l.Kind == "garbage-xml" || l.Kind == "xrv" || (l.Kind == "inflate-garbage" && strings.Contains(encoding, "redirect")):
@@ -370,5 +395,22 @@ func (c *Ctx) genC18() {
 		}
 	}
 	logoutPartialPin = ""
+	// signatures without KeyInfo, and trusted certificates that are all outside their validity period (judged at a far-away
+	// instant): an expired or not-yet-valid certificate verifies nothing, whoever signed and whatever the KeyInfo says
+	for _, trust := range [][]string{{"idp"}, {"idp", "idp2"}} {
+		logoutTrust = trust
+		for _, when := range []*time.Time{nil, tp(time.Date(2190, 1, 1, 0, 0, 0, 0, time.UTC)), tp(time.Date(1990, 1, 1, 0, 0, 0, 0, time.UTC))} {
+			logoutCertClock = when
+			for _, sg := range []string{"idp", "idp-nokeyinfo", "attacker", "attacker-nokeyinfo", "none"} {
+				for _, e := range encs {
+					l := base()
+					l.Sig = sg
+					c.count("c18-certificate-validity", fmt.Sprintf("trust=%d clock=%v sig=%s", len(trust), when != nil, sg))
+					c.runLogout(l, e, delay)
+				}
+			}
+		}
+	}
+	logoutCertClock, logoutTrust = nil, nil
 	_ = etree.NewDocument
 }
